@@ -155,18 +155,23 @@ def make_starts(env, name, o):
                                                  start_date=o["starts"].get("start", DEFAULT_START))
 
 
+def _nm(name, o):
+    """display name of the object (spec key unless the spec gives another one, e.g. to make two objects share a name)"""
+    return o.get("name", name) if isinstance(o, dict) else name
+
+
 def build(spec, env, order=None, make_system=True):
     """Build real objects from spec.  Returns dict name -> object (plus 'system')."""
     objs = {}
     for name, o in spec.get("storages", {}).items():
-        objs[name] = Storage(name, **_kw(env, name, "storage"), fixed_nb_of_instances=_fixed(env, name, o))
+        objs[name] = Storage(_nm(name, o), **_kw(env, name, "storage"), fixed_nb_of_instances=_fixed(env, name, o))
     for name, o in spec.get("servers", {}).items():
         st = objs[o["storage"]]
         if o.get("cls", "Server") == "Server":
-            objs[name] = Server(name, server_type=SERVER_TYPES[o.get("server_type", "autoscaling")](),
+            objs[name] = Server(_nm(name, o), server_type=SERVER_TYPES[o.get("server_type", "autoscaling")](),
                                 **_kw(env, name, "server"), storage=st, fixed_nb_of_instances=_fixed(env, name, o))
         elif o["cls"] == "GPUServer":
-            objs[name] = GPUServer(name, server_type=SERVER_TYPES[o.get("server_type", "serverless")](),
+            objs[name] = GPUServer(_nm(name, o), server_type=SERVER_TYPES[o.get("server_type", "serverless")](),
                                    **_kw(env, name, "gpu_server"), storage=st,
                                    fixed_nb_of_instances=_fixed(env, name, o))
         else:
@@ -175,23 +180,23 @@ def build(spec, env, order=None, make_system=True):
         hook(spec, env, objs)
     for name, o in spec.get("jobs", {}).items():
         if o.get("cls", "Job") == "Job":
-            objs[name] = Job(name, server=objs[o["server"]], **_kw(env, name, "job"))
+            objs[name] = Job(_nm(name, o), server=objs[o["server"]], **_kw(env, name, "job"))
         else:
             objs[name] = o["factory"](name, spec, env, objs)
     for name, o in spec.get("steps", {}).items():
-        objs[name] = UsageJourneyStep(name, user_time_spent=env.sv(f"{name}.user_time_spent", 1, "min"),
+        objs[name] = UsageJourneyStep(_nm(name, o), user_time_spent=env.sv(f"{name}.user_time_spent", 1, "min"),
                                       jobs=[objs[j] for j in o["jobs"]])
     for name, o in spec.get("journeys", {}).items():
-        objs[name] = UsageJourney(name, uj_steps=[objs[s] for s in o["steps"]])
+        objs[name] = UsageJourney(_nm(name, o), uj_steps=[objs[s] for s in o["steps"]])
     for name, o in spec.get("devices", {}).items():
-        objs[name] = Device(name, **_kw(env, name, "device"))
+        objs[name] = Device(_nm(name, o), **_kw(env, name, "device"))
     for name, o in spec.get("countries", {}).items():
-        objs[name] = Country(name, o.get("short", name[:3].upper()),
+        objs[name] = Country(_nm(name, o), o.get("short", name[:3].upper()),
                              env.sv(f"{name}.average_carbon_intensity", 85, "g/kWh"), tz_obj(o.get("tz", "Europe/Paris")))
     for name, o in spec.get("networks", {}).items():
-        objs[name] = Network(name, **_kw(env, name, "network"))
+        objs[name] = Network(_nm(name, o), **_kw(env, name, "network"))
     for name, o in spec.get("patterns", {}).items():
-        objs[name] = UsagePattern(name, objs[o["journey"]], [objs[d] for d in o["devices"]], objs[o["network"]],
+        objs[name] = UsagePattern(_nm(name, o), objs[o["journey"]], [objs[d] for d in o["devices"]], objs[o["network"]],
                                   objs[o["country"]], make_starts(env, name, o))
     if make_system and "system" in spec:
         objs["system"] = System(spec["system"].get("name", "system"),
